@@ -10,26 +10,16 @@ From TS Require Import Model.Str Model.Outcome Model.Unicode Model.Syntax Model.
 From TS Require Import Model.TopsortAlgo Model.Topsort Model.Lang.Common.
 From TS Require Import Model.Lang.TypeScript Model.Lang.Kotlin Model.Lang.Swift Model.Lang.Scala Model.Lang.Go Model.Lang.Python.
 From TS Require Import Spec.Lexers Spec.C15Spec Spec.C15Render.
-From TS Require Proofs.C15 Proofs.C15_Render Proofs.C15_Kotlin Proofs.C15_Go Proofs.C15_Swift Proofs.C15_Python Proofs.C15_TypeScript.
+From TS Require Proofs.C15_Front Proofs.C15_Replace Proofs.C15 Proofs.C15_Render Proofs.C15_Kotlin Proofs.C15_Go Proofs.C15_Swift Proofs.C15_Python Proofs.C15_TypeScript.
 Import ListNotations.
 
-(* ---- front end: parse_comment_attrs delivers one string per doc attribute (which is what `/// s`,
-   `/** s */` and #[doc = "s"] all are to syn), in order, trimmed and otherwise RAW: embedded line breaks,
-   comment terminators, quotes and backslashes arrive unchanged at the six printers ---- *)
-Theorem C15_front_raw_doc_strings : forall uc attrs,
-  parse_comment_attrs uc attrs =
-  flat_map (fun a => match a_meta a with
-                     | MNV p (VStr s) => if path_is_ident p (lit "doc") then [trim uc s] else []
-                     | _ => []
-                     end) attrs.
-Proof. exact Proofs.C15.parse_comment_attrs_spec. Qed.
-Print Assumptions C15_front_raw_doc_strings.
-
-(* the same in the vocabulary of the specification: a doc attribute with value v is carried as [c15_carried uc v]
-   (= trim v); safe_<l>, known_C15 and good_C15 are decided on these carried strings *)
+(* ---- front end (after the repair of parse_comment_attrs): a doc attribute with value v - which is what `/// v`,
+   `/** v */` and #[doc = "v"] all are to syn - is carried as the LIST [c15_carried uc v] of Spec/C15Spec.v: the trimmed
+   lines of the trimmed value (str::lines, then split at every remaining CR; an empty value is one empty line).
+   parse_comment_attrs delivers exactly these lines, for all doc attributes in order ---- *)
 Theorem C15_front_carried : forall uc attrs,
   parse_comment_attrs uc attrs =
-  map (c15_carried uc)
+  flat_map (c15_carried uc)
       (flat_map (fun a => match a_meta a with
                           | MNV p (VStr s) => if path_is_ident p (lit "doc") then [s] else []
                           | _ => []
@@ -37,11 +27,42 @@ Theorem C15_front_carried : forall uc attrs,
 Proof. exact Proofs.C15.parse_comment_attrs_carried. Qed.
 Print Assumptions C15_front_carried.
 
+(* no carried line contains a line break: neither LF nor CR (for every white-space table uc; FF, VT, NEL, LS, PS are not
+   line ends of a `//`, `///` or `#` comment in the reference lexers of Spec/Lexers.v, and inside a block comment or a
+   docstring no line end matters) *)
+Theorem C15_carried_no_break : forall uc v d, In d (c15_carried uc v) -> safe_line eol_lf_cr d = true.
+Proof. exact Proofs.C15_Replace.c15_carried_no_break. Qed.
+Print Assumptions C15_carried_no_break.
+Theorem C15_front_no_break : forall uc attrs d, In d (parse_comment_attrs uc attrs) -> safe_line eol_lf_cr d = true.
+Proof. exact Proofs.C15.parse_comment_attrs_no_break. Qed.
+Print Assumptions C15_front_no_break.
+(* hence every carried line is c15_safe in every language and comment form *)
+Theorem C15_carried_safe : forall uc l docstring vs, forallb (c15_safe l docstring) (flat_map (c15_carried uc) vs) = true.
+Proof. exact Proofs.C15.c15_carried_safe. Qed.
+Print Assumptions C15_carried_safe.
+
+(* ---- the two escapes: what the model's TypeScript / Python writers apply to a doc string (str::replace, leftmost
+   non-overlapping) is the escape of Spec/C15Spec.v (c15_written): a backslash between `*` and `/`; three double quotes
+   in a row become three escaped quotes.  The escaped text never contains a terminator: no `*/`; never three
+   unescaped double quotes in a row, whatever the string (backslashes in front of quotes, runs of 4, 5, 6 .. quotes) ---- *)
+Theorem C15_ts_escape_model : forall d, ts_escape_comment d = c15_esc_ts d.
+Proof. exact Proofs.C15_Replace.ts_escape_comment_spec. Qed.
+Print Assumptions C15_ts_escape_model.
+Theorem C15_py_escape_model : forall d, py_escape_docstring d = c15_esc_py d.
+Proof. exact Proofs.C15_Replace.py_escape_docstring_spec. Qed.
+Print Assumptions C15_py_escape_model.
+Theorem C15_ts_escape_safe : forall d, safe_ts (c15_esc_ts d) = true.
+Proof. exact Proofs.C15.c15_esc_ts_safe. Qed.
+Print Assumptions C15_ts_escape_safe.
+Theorem C15_py_escape_safe : forall d, safe_py_docstring (c15_esc_py d) = true.
+Proof. exact Proofs.C15.c15_esc_py_safe. Qed.
+Print Assumptions C15_py_escape_safe.
+
 (* ---- the fragments of Spec/C15Spec.v are what the model's six write_comments print, for any doc
-   list and any indentation: same text, and the doc pieces are exactly the doc strings, in order
-   (so every doc string is reproduced verbatim) ---- *)
+   list and any indentation: same text, and the doc pieces are exactly the doc strings AS WRITTEN, in order
+   (so every doc string is reproduced: verbatim, or modulo the escape for TypeScript / Python docstrings) ---- *)
 Theorem C15_fragment_ts : forall indent docs,
-  text_of (ts_tmpl indent docs) = ts_comments indent docs /\ docs_of (ts_tmpl indent docs) = docs.
+  text_of (ts_tmpl indent docs) = ts_comments indent docs /\ docs_of (ts_tmpl indent docs) = map c15_esc_ts docs.
 Proof. exact Proofs.C15.C15_fragment_ts. Qed.
 Print Assumptions C15_fragment_ts.
 Theorem C15_fragment_kt : forall indent docs,
@@ -62,47 +83,61 @@ Proof. exact Proofs.C15.C15_fragment_go. Qed.
 Print Assumptions C15_fragment_go.
 Theorem C15_fragment_py : forall docstring indent docs,
   text_of (py_tmpl docstring indent docs) = py_write_comments docstring docs indent /\
-  docs_of (py_tmpl docstring indent docs) = docs.
+  docs_of (py_tmpl docstring indent docs) = map (c15_written C15py docstring) docs.
 Proof. exact Proofs.C15.C15_fragment_py. Qed.
 Print Assumptions C15_fragment_py.
 
-(* ---- containment, write_comments alone: for EVERY list of doc strings that are safe_<l> and every
-   indentation, every character of every doc string is read inside the comment (docstring) and the
-   lexer is back in code at the start of the line after the fragment ---- *)
-Theorem C15_contained_ts : forall indent docs, forallb safe_ts docs = true ->
-  c15_contained C15ts LCode (mark (ts_tmpl indent docs)) = true.
+(* ---- containment, write_comments alone, WITHOUT any hypothesis on the attribute values: for EVERY list [vs] of
+   doc attribute values and every indentation, the fragment printed for the lines they carry is contained: every
+   character of every line (as written) is read inside the comment (docstring) and the lexer is back in code at the start
+   of the line after the fragment.  For TypeScript and for Python docstrings this holds of ANY list of doc strings
+   (also ones with line breaks, which only the IR-level entry can produce) ---- *)
+Theorem C15_contained_ts : forall indent docs, c15_contained C15ts LCode (mark (ts_tmpl indent docs)) = true.
 Proof. exact Proofs.C15.C15_contained_ts. Qed.
 Print Assumptions C15_contained_ts.
-Theorem C15_contained_kt : forall indent docs, forallb safe_kt docs = true ->
-  c15_contained C15kt LCode (mark (kt_tmpl indent docs)) = true.
+Theorem C15_contained_kt : forall uc indent vs,
+  c15_contained C15kt LCode (mark (kt_tmpl indent (flat_map (c15_carried uc) vs))) = true.
 Proof. exact Proofs.C15.C15_contained_kt. Qed.
 Print Assumptions C15_contained_kt.
-Theorem C15_contained_sw : forall indent docs, forallb safe_sw docs = true ->
-  c15_contained C15sw LCode (mark (sw_tmpl indent docs)) = true.
+Theorem C15_contained_sw : forall uc indent vs,
+  c15_contained C15sw LCode (mark (sw_tmpl indent (flat_map (c15_carried uc) vs))) = true.
 Proof. exact Proofs.C15.C15_contained_sw. Qed.
 Print Assumptions C15_contained_sw.
-Theorem C15_contained_sc : forall indent docs, forallb safe_sc docs = true ->
-  c15_contained C15sc LCode (mark (sc_tmpl indent docs)) = true.
+Theorem C15_contained_sc : forall uc indent vs,
+  c15_contained C15sc LCode (mark (sc_tmpl indent (flat_map (c15_carried uc) vs))) = true.
 Proof. exact Proofs.C15.C15_contained_sc. Qed.
 Print Assumptions C15_contained_sc.
-Theorem C15_contained_go : forall indent docs, forallb safe_go docs = true ->
-  c15_contained C15go LCode (mark (go_tmpl indent docs)) = true.
+Theorem C15_contained_go : forall uc indent vs,
+  c15_contained C15go LCode (mark (go_tmpl indent (flat_map (c15_carried uc) vs))) = true.
 Proof. exact Proofs.C15.C15_contained_go. Qed.
 Print Assumptions C15_contained_go.
 (* Python: docstring = true is the triple-double-quote form, false the `# ` form *)
-Theorem C15_contained_py : forall docstring indent docs, forallb (safe_py docstring) docs = true ->
-  c15_contained C15py LCode (mark (py_tmpl docstring indent docs)) = true.
+Theorem C15_contained_py : forall uc docstring indent vs,
+  c15_contained C15py LCode (mark (py_tmpl docstring indent (flat_map (c15_carried uc) vs))) = true.
 Proof. exact Proofs.C15.C15_contained_py. Qed.
 Print Assumptions C15_contained_py.
+Theorem C15_contained_py_docstring : forall indent docs, c15_contained C15py LCode (mark (py_tmpl true indent docs)) = true.
+Proof. exact Proofs.C15.C15_contained_py_docstring. Qed.
+Print Assumptions C15_contained_py_docstring.
 
-(* ---- necessity: the carve-out is exactly the failing set.  As soon as ONE doc string of the list is
-   not safe_<l>, the fragment is not contained (all six languages, both Python forms) ---- *)
-Theorem C15_necessary : forall l docstring indent docs, forallb (c15_safe l docstring) docs = false ->
-  c15_contained l LCode (mark (c15_tmpl l docstring indent docs)) = false.
-Proof. exact Proofs.C15.C15_necessary. Qed.
-Print Assumptions C15_necessary.
+(* ---- exactness, all six languages and both Python forms, for ARBITRARY doc strings (the IR-level entry can put strings
+   into the IR that no source text produces): the fragment is contained IF AND ONLY IF every doc string is c15_safe, i.e.
+   its written form is safe_<l>.  On strings as written: no LF / CR (Go: no LF) for the line comments, no `*/`, no three
+   unescaped double quotes in a row.  So a regression of the front end (a line break delivered again) or of an escape
+   makes the fragment NOT contained: there is no carve-out left ---- *)
+Theorem C15_exact : forall l docstring indent docs,
+  c15_contained l LCode (mark (c15_tmpl l docstring indent docs)) = forallb (c15_safe l docstring) docs.
+Proof. exact Proofs.C15.C15_exact. Qed.
+Print Assumptions C15_exact.
+Theorem C15_exact_written : forall l docstring indent ws,
+  c15_contained l LCode (mark (c15_tmpl_w l docstring indent ws)) = forallb (c15_safe_w l docstring) ws.
+Proof. exact Proofs.C15.C15_exact_w. Qed.
+Print Assumptions C15_exact_written.
+Theorem C15_no_finding_class : forall l sites, known_C15 l sites = None.
+Proof. exact Proofs.C15.known_C15_none. Qed.
+Print Assumptions C15_no_finding_class.
 
-(* safe_<l> in words: no LF / CR (Go: no LF) in the string; no `*/`; no three unescaped double quotes in a row *)
+(* safe_<l> in words: no LF / CR (Go: no LF) in the string; no `*/` *)
 Theorem C15_safe_line_meaning : forall eol d,
   safe_line eol d = true <-> (forall c, In c d -> eol c = false).
 Proof. exact Proofs.C15.safe_line_meaning. Qed.
@@ -113,7 +148,7 @@ Proof. exact Proofs.C15.safe_ts_meaning. Qed.
 Print Assumptions C15_safe_ts_meaning.
 
 (* ---- whole files, partial: a file that is a sequence of code parts and comment fragments is
-   contained iff all doc strings of all fragments are safe, PROVIDED every code part read from code
+   contained iff all doc strings of all fragments are c15_safe, PROVIDED every code part read from code
    mode ends in code mode.  Missing for the full statement: that the text the six printers write
    between the fragments has this property (whole-file lexing, owned by C10), and that the model's
    renderers place their write_comments calls at such boundaries; the correspondence check observes
@@ -125,24 +160,25 @@ Print Assumptions C15_file_partial.
 
 (* ---- TypeScript, one item through the model's write_struct / write_enum / write_type_alias (any IR item,
    any configuration, any printer state): the printed text consists of code parts and comment fragments
-   whose doc strings are exactly the IR's doc strings of the item (type, fields, variants, struct-variant
-   fields, alias) in source order - every one reproduced, nothing else derived from them - and the text is
-   contained iff all of them are safe_ts, provided the code parts keep the lexer in code mode (partial for
-   the same reason as above; the other five renderers are covered at fragment level only) ---- *)
+   whose doc pieces are exactly the IR's doc strings of the item (type, fields, variants, struct-variant
+   fields, alias) in source order, each written with its `*/` escaped - every one reproduced, nothing else derived
+   from them - and the text is contained WHATEVER the doc strings are, provided the code parts keep the lexer in code
+   mode (partial for the same reason as above) ---- *)
 Theorem C15_ts_item_partial : forall (uc : unicode) (cfg : ts_config) it st text st',
   ts_write_item uc cfg it st = Ok (text, st') ->
   exists parts,
     text = text_of (c15_file_pieces C15ts parts) /\
-    docs_of (c15_file_pieces C15ts parts) = c15_item_docs it /\
+    docs_of (c15_file_pieces C15ts parts) = map c15_esc_ts (c15_item_docs it) /\
     (Forall (c15_code_neutral C15ts) parts ->
-     c15_contained C15ts LCode (mark (c15_file_pieces C15ts parts)) = forallb safe_ts (c15_item_docs it)).
+     c15_contained C15ts LCode (mark (c15_file_pieces C15ts parts)) = true).
 Proof. exact Proofs.C15.C15_ts_item_partial. Qed.
 Print Assumptions C15_ts_item_partial.
 
 (* ---- Scala, every declaration the model renders (type alias, case class with its members, empty class,
    sealed trait + companion object with its variants, helper aliases): code parts and comment fragments
    whose doc strings are exactly the declaration's (type doc, then member / variant docs, in print
-   order); contained iff all are safe_sc, given neutral code parts (partial as above) ---- *)
+   order); contained iff all are safe_sc (no LF / CR: true of everything the front end carries, C15_front_no_break),
+   given neutral code parts (partial as above) ---- *)
 Theorem C15_sc_render_partial : forall d : sc_decl,
   exists parts,
     sc_render_decl d = text_of (c15_file_pieces C15sc parts) /\
@@ -152,27 +188,29 @@ Theorem C15_sc_render_partial : forall d : sc_decl,
 Proof. exact Proofs.C15.C15_sc_render_partial. Qed.
 Print Assumptions C15_sc_render_partial.
 
-(* ---- the unrestricted statement is false of the faithful model: one witness per language.  A struct
-   whose doc string is `alpha<LF>beta` (what `/** alpha<LF>beta */` arrives as), `alpha */ beta`,
-   alpha, three double quotes, beta: the generator reproduces the doc string and part of it is read as code. ---- *)
-Theorem C15_kt_refuted : Proofs.C15.c15_refutes C15kt (lit "alpha" ++ [ch_nl] ++ lit "beta").
-Proof. exact Proofs.C15.C15_kt_refuted. Qed.
-Print Assumptions C15_kt_refuted.
-Theorem C15_sw_refuted : Proofs.C15.c15_refutes C15sw (lit "alpha" ++ [ch_nl] ++ lit "beta").
-Proof. exact Proofs.C15.C15_sw_refuted. Qed.
-Print Assumptions C15_sw_refuted.
-Theorem C15_sc_refuted : Proofs.C15.c15_refutes C15sc (lit "alpha" ++ [ch_nl] ++ lit "beta").
-Proof. exact Proofs.C15.C15_sc_refuted. Qed.
-Print Assumptions C15_sc_refuted.
-Theorem C15_go_refuted : Proofs.C15.c15_refutes C15go (lit "alpha" ++ [ch_nl] ++ lit "beta").
-Proof. exact Proofs.C15.C15_go_refuted. Qed.
-Print Assumptions C15_go_refuted.
-Theorem C15_ts_refuted : Proofs.C15.c15_refutes C15ts (lit "alpha */ beta").
-Proof. exact Proofs.C15.C15_ts_refuted. Qed.
-Print Assumptions C15_ts_refuted.
-Theorem C15_py_refuted : Proofs.C15.c15_refutes C15py (lit "alpha """""" beta").
-Proof. exact Proofs.C15.C15_py_refuted. Qed.
-Print Assumptions C15_py_refuted.
+(* ---- regression pins: the witnesses of the six repaired findings (KNOWN_FINDINGS.jsonl, status fixed), through the
+   model's front end and whole-file generators.  #[doc = " alpha<LF>beta "] (what `/** alpha<LF>beta */` is) on a struct
+   is carried as the two lines alpha, beta; `alpha */ beta` and alpha, three double quotes, beta as one line each; the
+   generated file reproduces every line as written and every character of it is read inside a comment / docstring,
+   the lexer back in code at the end of the file. ---- *)
+Theorem C15_kt_fixed : Proofs.C15.c15_pinned C15kt (lit " alpha" ++ [ch_nl] ++ lit "beta ") [lit "alpha"; lit "beta"].
+Proof. exact Proofs.C15.C15_kt_fixed. Qed.
+Print Assumptions C15_kt_fixed.
+Theorem C15_sw_fixed : Proofs.C15.c15_pinned C15sw (lit " alpha" ++ [ch_nl] ++ lit "beta ") [lit "alpha"; lit "beta"].
+Proof. exact Proofs.C15.C15_sw_fixed. Qed.
+Print Assumptions C15_sw_fixed.
+Theorem C15_sc_fixed : Proofs.C15.c15_pinned C15sc (lit " alpha" ++ [ch_nl] ++ lit "beta ") [lit "alpha"; lit "beta"].
+Proof. exact Proofs.C15.C15_sc_fixed. Qed.
+Print Assumptions C15_sc_fixed.
+Theorem C15_go_fixed : Proofs.C15.c15_pinned C15go (lit " alpha" ++ [ch_nl] ++ lit "beta ") [lit "alpha"; lit "beta"].
+Proof. exact Proofs.C15.C15_go_fixed. Qed.
+Print Assumptions C15_go_fixed.
+Theorem C15_ts_fixed : Proofs.C15.c15_pinned C15ts (lit "alpha */ beta") [lit "alpha */ beta"].
+Proof. exact Proofs.C15.C15_ts_fixed. Qed.
+Print Assumptions C15_ts_fixed.
+Theorem C15_py_fixed : Proofs.C15.c15_pinned C15py (lit " alpha """""" beta") [lit "alpha """""" beta"].
+Proof. exact Proofs.C15.C15_py_fixed. Qed.
+Print Assumptions C15_py_fixed.
 
 (* ======================= renderer level, the other back ends (Spec/C15Render.v) =======================
    Kotlin, Swift, Go and Python do not inline struct variants: write_types_for_anonymous_structs prints
@@ -188,7 +226,8 @@ Print Assumptions C15_helpers_first_perm.
 (* ---- Kotlin, one item through the model's write_struct / write_enum (with the helper data classes) /
    write_type_alias (typealias and value class), any configuration: the printed text is code parts and
    `/// ` fragments whose doc strings are exactly [c15_item_docs_helpers_first it], in this order - every doc
-   string of the item reproduced - and the text is contained iff all of them are safe_kt, provided the
+   string of the item reproduced - and the text is contained iff all of them are safe_kt (no LF / CR: true of every
+   string the front end carries, C15_front_no_break; the IR-level entry can violate it), provided the
    code parts keep the lexer in code mode (partial for that hypothesis, as C15_file_partial) ---- *)
 Theorem C15_kt_render_partial : forall (cfg : kt_config) it text,
   kt_write_item cfg it = Ok text ->
@@ -240,15 +279,16 @@ Print Assumptions C15_sw_render_partial.
    printer state.  [c15_py_item_sites it] lists the documented positions in Python's print order with the
    form each is printed in: (true, d) a docstring (it FOLLOWS the line it documents), (false, d) a `# `
    line (only the doc of an algebraic enum, printed after the variant classes).  The text is code
-   parts and comment fragments carrying exactly these doc strings in this order; it is contained iff
-   every docstring is safe_py_docstring and every `# ` string safe_py_hash, given neutral code parts
-   (partial as above).  The second theorem: this order is a rearrangement of the IR's doc strings of
+   parts and comment fragments carrying exactly these doc strings in this order, each as written in its form
+   (c15_site_text: three double quotes escaped in a docstring, verbatim in a `# ` line); it is contained iff
+   every `# ` string is free of LF / CR (c15_site_ok is constantly true on docstring sites: C15_py_escape_safe),
+   given neutral code parts (partial as above).  The second theorem: this order is a rearrangement of the IR's doc strings of
    the item plus the generated helper comments. ---- *)
 Theorem C15_py_render_partial : forall (uc : unicode) (cfg : py_config) it st text st',
   py_write_item uc cfg it st = Ok (text, st') ->
   exists parts,
     text = text_of (c15_file_pieces C15py parts) /\
-    docs_of (c15_file_pieces C15py parts) = map snd (c15_py_item_sites it) /\
+    docs_of (c15_file_pieces C15py parts) = map (c15_site_text C15py) (c15_py_item_sites it) /\
     (Forall (c15_code_neutral C15py) parts ->
      c15_contained C15py LCode (mark (c15_file_pieces C15py parts)) =
      forallb (c15_site_ok C15py) (c15_py_item_sites it)).
@@ -269,8 +309,8 @@ Print Assumptions C15_py_sites_perm.
    literal fragment of the templates, generics, printed types by induction over the type, {:?}-quoted
    keys and wire names, decimal constants), so: *)
 
-(* ---- TypeScript, one item, any printer state: the printed text is contained iff all doc strings of the
-   item are safe_ts, and they are all reproduced, in source order ---- *)
+(* ---- TypeScript, one item, any printer state: the printed text is contained, whatever the doc strings of the
+   item are, and they are all reproduced (with `*/` escaped), in source order ---- *)
 Theorem C15_ts_item : forall (uc : unicode) (cfg : ts_config),
   c15_mappings_plain C15ts (ts_type_mappings cfg) = true ->
   forall it st text st',
@@ -278,8 +318,8 @@ Theorem C15_ts_item : forall (uc : unicode) (cfg : ts_config),
   ts_write_item uc cfg it st = Ok (text, st') ->
   exists parts,
     text = text_of (c15_file_pieces C15ts parts) /\
-    docs_of (c15_file_pieces C15ts parts) = c15_item_docs it /\
-    c15_contained C15ts LCode (mark (c15_file_pieces C15ts parts)) = forallb safe_ts (c15_item_docs it).
+    docs_of (c15_file_pieces C15ts parts) = map c15_esc_ts (c15_item_docs it) /\
+    c15_contained C15ts LCode (mark (c15_file_pieces C15ts parts)) = true.
 Proof. exact Proofs.C15_TypeScript.C15_ts_item. Qed.
 Print Assumptions C15_ts_item.
 
@@ -291,7 +331,8 @@ Print Assumptions C15_ts_item.
    variant between double quotes verbatim, and two adjacent quotes may open a raw string.)  With a plain
    prefix and plain type_mappings targets, the text kt_write_item prints - helper data classes with their
    @SerialName lines and toString() literal, data / value / enum / sealed classes, typealias - is
-   contained iff all doc strings of the item (print order) are safe_kt ---- *)
+   contained iff all doc strings of the item (print order) are safe_kt - free of LF / CR, as every string the front
+   end carries is ---- *)
 Theorem C15_kt_item : forall (cfg : kt_config),
   c15_plain C15kt (kt_prefix cfg) = true ->
   c15_mappings_plain C15kt (kt_type_mappings cfg) = true ->
@@ -312,9 +353,8 @@ Print Assumptions C15_kt_item.
    terminator (c15_ts_item_keys_ok: the trailer prints the keys of Date-typed fields raw between double quotes),
    with plain type_mappings targets and a version string without `*` (it is printed inside a block comment):
    the generated file is code parts and comment fragments whose doc strings are the doc strings of the items in
-   output order (a permutation of the program's items), followed - when the trailer is printed - by the four
-   comment lines typeshare writes itself; and the file is contained iff every doc string of the program is
-   safe_ts.  (The unrestricted statement is false: C15_ts_refuted.) ---- *)
+   output order (a permutation of the program's items), each with `*/` escaped, followed - when the trailer is printed -
+   by the four comment lines typeshare writes itself; and the file is contained, whatever the doc strings are. ---- *)
 Theorem C15_ts_file : forall (uc : unicode) (cfg : ts_config),
   c15_mappings_plain C15ts (ts_type_mappings cfg) = true ->
   forall pd text,
@@ -326,8 +366,44 @@ Theorem C15_ts_file : forall (uc : unicode) (cfg : ts_config),
     topsort (items_of pd) = Ok items /\ Permutation items (items_of pd) /\
     (trailer = [] \/ trailer = c15_ts_trailer_docs) /\
     text = text_of (c15_file_pieces C15ts parts) /\
-    docs_of (c15_file_pieces C15ts parts) = flat_map c15_item_docs items ++ trailer /\
-    c15_contained C15ts LCode (mark (c15_file_pieces C15ts parts)) =
-    forallb safe_ts (flat_map c15_item_docs (items_of pd)).
+    docs_of (c15_file_pieces C15ts parts) = map c15_esc_ts (flat_map c15_item_docs items ++ trailer) /\
+    c15_contained C15ts LCode (mark (c15_file_pieces C15ts parts)) = true.
 Proof. exact Proofs.C15_TypeScript.C15_ts_file. Qed.
 Print Assumptions C15_ts_file.
+
+(* ======================= front end to IR: parsed items =======================
+   Every doc string of every item the model's four item parsers return (parse_struct - also a tuple struct turned
+   alias and a serialized_as override -, parse_enum, parse_type_alias, parse_const) is a carried line of a doc
+   attribute of the item or of one of its members: free of LF and CR.  So on parsed items the `contained iff all doc
+   strings are safe_<l>` statements above are `contained`. *)
+Theorem C15_parsed_struct_line_free : forall uc tstr T attrs ident gens fs it,
+  parse_struct uc tstr T attrs ident gens fs = Ok it ->
+  Forall (fun d => safe_line eol_lf_cr d = true) (c15_item_docs it).
+Proof. exact Proofs.C15_Front.c15_parse_struct_free. Qed.
+Print Assumptions C15_parsed_struct_line_free.
+Theorem C15_parsed_enum_line_free : forall uc tstr T attrs ident gens vs it,
+  parse_enum uc tstr T attrs ident gens vs = Ok it ->
+  Forall (fun d => safe_line eol_lf_cr d = true) (c15_item_docs it).
+Proof. exact Proofs.C15_Front.c15_parse_enum_free. Qed.
+Print Assumptions C15_parsed_enum_line_free.
+Theorem C15_parsed_alias_line_free : forall uc tstr attrs ident gens t it,
+  parse_type_alias uc tstr attrs ident gens t = Ok it ->
+  Forall (fun d => safe_line eol_lf_cr d = true) (c15_item_docs it).
+Proof. exact Proofs.C15_Front.c15_parse_type_alias_free. Qed.
+Print Assumptions C15_parsed_alias_line_free.
+
+(* ---- Kotlin, one item whose doc strings are free of line breaks (every parsed item), on the input class of C15_kt_item:
+   the printed text - helper data classes under their generated comments included - is contained ---- *)
+Theorem C15_kt_item_line_free : forall (cfg : kt_config),
+  c15_plain C15kt (kt_prefix cfg) = true ->
+  c15_mappings_plain C15kt (kt_type_mappings cfg) = true ->
+  forall it text,
+  c15_item_strict C15kt Kotlin it = true ->
+  Forall (fun d => safe_line eol_lf_cr d = true) (c15_item_docs it) ->
+  kt_write_item cfg it = Ok text ->
+  exists parts,
+    text = text_of (c15_file_pieces C15kt parts) /\
+    docs_of (c15_file_pieces C15kt parts) = c15_item_docs_helpers_first it /\
+    c15_contained C15kt LCode (mark (c15_file_pieces C15kt parts)) = true.
+Proof. exact Proofs.C15_Front.C15_kt_item_line_free. Qed.
+Print Assumptions C15_kt_item_line_free.
